@@ -11,8 +11,9 @@
 import Gzx.Proofs.RS
 import Gzx.Proofs.MinDist
 import Gzx.Proofs.SingleError
+import Gzx.Proofs.Total
 namespace Gzx.Properties.C04
-open Gzx Gzx.GF Gzx.RS Gzx.Ref.GF Gzx.Proofs.GF Gzx.Proofs.Poly Gzx.Proofs.RS Gzx.Proofs.MinDist Gzx.Proofs.SingleError
+open Gzx Gzx.GF Gzx.RS Gzx.Ref.GF Gzx.Proofs.GF Gzx.Proofs.Poly Gzx.Proofs.RS Gzx.Proofs.MinDist Gzx.Proofs.SingleError Gzx.Proofs.Total
 
 /-! ## (a) field arithmetic = polynomial arithmetic modulo the primitive polynomial -/
 
@@ -176,6 +177,17 @@ example : InField aztecParam [1, 2, 3] ∧ 5 + aztecParam.base ≤ aztecParam.si
   refine ⟨?_, by decide⟩
   intro x hx; simp at hx; rcases hx with rfl | rfl | rfl <;> decide
 
+
+/-- `Decode` is total on in-range input: for every non-empty word over the field and every parity count the
+    field supports it returns a word of the same length over the field, or a `ReedSolomonException`
+    (`.checksum`) — never a Go panic, never fuel exhaustion of the two Euclid loops (they terminate). -/
+theorem rs_decode_total (F : GF) (h : FieldOK F) (w : List Nat) (r : Nat) (hne : w ≠ []) (hw : InField F w)
+    (hb : r + F.base ≤ F.size) :
+    (∃ w', decode F w r = .ok w' ∧ InField F w' ∧ w'.length = w.length) ∨ decode F w r = .error .checksum := by
+  unfold decode
+  rcases decodeD_total h w hne hw r hb with ⟨w', h1, h2, h3⟩ | ⟨e, h1, h2⟩
+  · left; rw [h1]; exact ⟨w', rfl, h2, h3⟩
+  · right; rw [h1]; exact congrArg _ h2
 
 /-! ## (d) error correction up to the design distance
 
